@@ -18,16 +18,20 @@ THEOREMS = [
 TEXT = "BUG-9"
 NAMES = ["app", "core", "lib", "mid", "util", "zeta"]        # repository id = position (sorted() order of the names)
 RULE = ("col: 2-3 repositories (app->lib; app->lib,util; app->mid->lib), component with 1-2 release lines and merges, parent "
-        "branches forking/merging, pins moving by 0-2 component builds and never decreasing along a path, tags on half the "
-        "commits, both supply orders; ord: random dependency graphs over <=6 repositories incl. cycles, self-dependencies and "
+        "branches forking/merging, pins moving by 0-2 component builds and never decreasing along a path (25%: the oldest "
+        "parent commits pin a version that is no build tag), tags on half the commits, commit times tight (30%), spread "
+        "inside the windows (60%) or anywhere (10%, not judged), both supply orders; ord: random dependency graphs over <=6 repositories incl. cycles, self-dependencies and "
         "unknown components, shuffled supply order. non-trivial = col with a non-empty included_at somewhere, or ord with >=2 "
         "repositories; distinct by protocol line")
 TRUSTED = ["tests/mock_git.py (synthetic git objects fed to the real ak.ghist code)",
            "sorted() on repository names (the model sorts the ranks of the names)",
            "iteration order of the set `relevant_cmpnts` is not observable: bumps are compared sorted by component"]
-ASSUMPTIONS = ["commit times inside the cut-off windows (quantifier): no branch skipped, every component with reported builds relevant",
-               "component build numbers increase along history; pins name existing builds and never decrease along a path, read as "
-               "containment: the newly pinned component build contains the previously pinned one (scenarios with incomparable "
+ASSUMPTIONS = ["commit times inside the cut-off windows (quantifier): inside a repository at most 30 days between a branch head and any "
+               "younger commit, no parent commit a day or more older than a commit of one of its components (Hist.InWindow, "
+               "CompWindow in the theorems; outside, model and code are compared, the oracle does not judge)",
+               "component build numbers increase along history; pins never decrease along a path, read as containment: the newly "
+               "pinned component build contains the previously pinned one, a pin that names no build of the component (unknown "
+               "version) ships nothing and may only come before pins that name builds (scenarios with incomparable "
                "consecutive pins, tag 'pin-crosses-parallel-builds', are compared with the model but not judged)",
                "ASCII ref names; fewer than 10^9 report commits per repository"]
 
@@ -57,10 +61,12 @@ def dec_repo(tok):
     commits = []
     if cs != "-":
         for t in cs.split(";"):
-            p, tg, m, ts, pins = t.split(":")
-            c = {"p": [] if p == "-" else [int(x) for x in p.split(",")],
-                 "t": [] if tg == "-" else [[int(x) for x in bn.split(".")] for bn in tg.split("+")],
+            p, tg, m, ts, sv, pins = t.split(":")
+            bns, other = G.dec_tags(tg, sv)
+            c = {"p": [] if p == "-" else [int(x) for x in p.split(",")], "t": bns,
                  "m": int(m), "ts": int(ts), "pins": {}}
+            if other:
+                c["xt"] = other
             if pins != "-":
                 for q in pins.split("+"):
                     k, v = q.split("=")
@@ -381,16 +387,23 @@ def check_included(repos, reports):
                 pinc = {}
                 for c in elig:
                     v = oh["commits"][c].get("pins", {}).get(comp["name"])
-                    if v is None or tuple(v) not in ver2commit:
-                        judged = False          # outside the quantifier: pin missing or naming no build
+                    if v is None:
+                        judged = False          # outside the quantifier: no pin at all
                         break
-                    pinc[c] = ver2commit[tuple(v)]
+                    pinc[c] = ver2commit.get(tuple(v))      # None: a version that is no build tag of the component
+                for c in elig:
+                    if judged and pinc[c] is None:
+                        ac = G.anc(oh, c)
+                        if any(c2 != c and c2 in ac and pinc[c2] is not None for c2 in elig):
+                            judged = False      # outside the quantifier: the pin goes back to a version that names nothing
                 if not judged:
                     break
                 for R in exp:
                     cont = set()
                     for c in elig:
                         pc = pinc[c]
+                        if pc is None:
+                            continue            # ships nothing
                         if pc not in canc:
                             canc[pc] = G.anc(ch, pc)
                         if R in canc[pc]:
@@ -566,9 +579,28 @@ def gen_col(rng, shape, lib_lines):
         raw = {"app": (app, aheads), "lib": (lib, lheads), "mid": (mid, mheads)}
     for r in repos:
         r["hist"] = finish_repo(*raw[r["name"]])
+    if rng.random() < 0.25:
+        unknown_early_pins(rng, repos)
+    if rng.random() < 0.2:
+        for r in repos:                 # other tags (no build tags) on some commits
+            G.add_noise_tags(rng, r["hist"], p=0.25, traps=False)
     add_col_times(rng, repos)
     rng.shuffle(repos)
     return repos
+
+
+def unknown_early_pins(rng, repos):
+    """the oldest commits of a parent repository pin a version that is no build tag of the component (it ships no
+    reported build); commit ids below a bound are closed under git ancestry, so the pin never goes back to it"""
+    for r in repos:
+        cs = r["hist"]["commits"]
+        if not r["deps"] or len(cs) < 2:
+            continue
+        k = rng.randint(1, max(1, len(cs) // 2))
+        for c in cs[:k]:
+            for d in list(c.get("pins", {})):
+                if rng.random() < 0.8:
+                    c["pins"][d] = [0, 0, 1 + rng.randrange(3)]
 
 
 def add_col_times(rng, repos, mode=None):
@@ -771,43 +803,53 @@ def tags(case, replies):
 LEVEL_TEXT = ("Repository ordering is fully proved on the model the driver runs (the DFS of ReposCollection.__init__ with its "
               "path-name stack): the result is a permutation with every component before its owners (repo_order), it depends "
               "only on the set of repositories (repo_order_independent), ValueError is raised exactly for cyclic dependency "
-              "graphs incl. self-dependencies (cycle_rejected) and nothing else can happen (repo_order_total). For included_at "
-              "and bumps: for one component release line the clause is proved in git terms (included_first_git_partial): a "
-              "reported parent build registers a reported component build exactly when the build's commit is a git ancestor "
-              "of the component commit whose build tag the parent build pins, and of no component commit pinned by an "
-              "eligible parent commit properly below (hypotheses = the quantifier: eligible parent commits pin tags of "
-              "commits of that component branch with a reported build at or below them, pins never go back along ancestry, "
-              "component build numbers unique). It rests on: the component's bn_map sends a tag to the reported build at or "
-              "nearest below the tagged commit and containment in the component's report graph is git ancestry "
-              "(Lemmas/GhistBnAll.version_contains_iff). Parent side, at specification "
-              "level and for every parent history (forks, merges): under the quantifier's hypotheses for a branch (every "
-              "eligible commit pins a component version known to bn_map; the pinned version never decreases along git "
-              "ancestry, read as containment) a reported build registers a component build exactly when the version pinned "
-              "in its commit contains it and the version pinned in no eligible commit (tagged or head, new in the branch, "
-              "reported or not) properly below it does (included_first_spec_partial), such a first build is always a "
-              "reported build (included_first_exists_partial, skipped_version), the parent builds recorded in a build are the "
-              "nearest builds of the branch below it (parent_builds_nearest). Model level, all inputs: the registration loop records a "
+              "graphs incl. self-dependencies (cycle_rejected) and nothing else can happen (repo_order_total). The whole "
+              "multi-repository analysis is total (analysis_total): a dependency cycle's ValueError or the reports, none of the "
+              "code's KeyError/AttributeError/TypeError/assertions is reachable, whatever the commit times, the pinned versions "
+              "(known or not) and the build graphs are. For included_at and bumps the clause is proved in git terms for a "
+              "(parent branch, component release line) pair (included_first_git_partial): a reported parent build registers a "
+              "reported component build exactly when the build's commit is a git ancestor of the component commit whose build "
+              "tag the parent build pins, and of no component commit pinned by an eligible parent commit properly below. "
+              "Hypotheses = the quantifier: every eligible parent commit pins a build tag of a commit of that component "
+              "branch (with or without a reported build below it) or a version that ships no reported build at all (another "
+              "release line without report-related builds, or no build tag of the component); pins never go back along "
+              "ancestry; component build numbers are unique; commit times inside the cut-off windows (Hist.InWindow, "
+              "CompWindow — stated with the two cut-off periods the translator reads from ak/ghist.py). It rests on: the "
+              "component's bn_map sends a tag to the reported build at or nearest below the tagged commit, names nothing when "
+              "there is none, and containment in the component's report graph is git ancestry (Lemmas/GhistBnAll). Parent "
+              "side, at specification level and for every parent history (forks, merges): a reported build registers a "
+              "component build exactly when the version pinned in its commit contains it and the version pinned in no eligible "
+              "commit (tagged or head, new in the branch, reported or not) properly below it does "
+              "(included_first_spec_partial), such a first build is always a reported build (included_first_exists_partial, "
+              "skipped_version), the bump of a reported build names what its commit's pin names, and nothing was shipped before "
+              "when it names nothing (reported_bump), the parent builds recorded in a build are the nearest builds of the "
+              "branch below it (parent_builds_nearest). Model level, all inputs: the registration loop records a "
               "component build at a parent build exactly when the build's new pinned version contains it and none of the "
               "versions contained in the build's parent builds does, for every shape of the component's build graph "
               "(included_first_partial, after the repair 88b742a); the stored bumps are the ones computed from the commit's pins, "
               "bn_map and the parent builds' bumps (bumps_recorded); what a parent build's version contains is not registered "
               "again at the next build (included_only_first_partial); an eligible commit that is not a reported build has only "
-              "trivial bumps (bump_build_reported_partial). The link from parent builds / bn_map to git ancestry rests on the "
-              "executable model being equal to the real code on generated multi-repository scenarios, judged by an independent "
-              "oracle (minimal own builds whose pin contains the component build).")
+              "trivial bumps (bump_build_reported_partial). The model has the commit times: the obsolete-branch test and the "
+              "narrowing of the relevant components down the DFS (_get_relevant_cmpnts_names) are modelled and compared with "
+              "the code inside and outside the windows. model = code is established by a differential run of the compiled "
+              "model against the real ak.ghist on generated multi-repository scenarios, judged by an independent oracle "
+              "(minimal own builds whose pin contains the component build).")
 LEVEL_NOTE = ("Found and repaired while building this check: get_rbuilds_in_bump re-registered component builds contained in "
               "a previous version when the component history has a diamond of reported builds (fix 88b742a; witness in corpus(), "
               "pre-fix tree is caught with a concrete history). Quantifier reading agreed with the coordinator: 'the pinned "
               "version never decreases along a path' = the newly pinned component build contains the previously pinned one; "
               "scenarios with incomparable consecutive pins (tag 'pin-crosses-parallel-builds') are compared with the model but "
-              "not judged. Missing for the full included_first / included_only_first / bump_build_reported theorems (why they keep "
-              "the _partial suffix): pins into several component release lines (the code links component builds inside one "
-              "branch only, which the statement does not spell out) and parent commits whose pinned version contains no "
-              "reported component build; there is no totality theorem for multi-repository analyses (C06.report_total covers "
-              "single repositories and plugs that do not raise). Trusted: Lean kernel, translator, adapter, mock "
+              "not judged. Why theorems keep the _partial suffix: parent branches whose pins move from one component release line "
+              "with reported builds to another one are not covered by the git-level theorem (the code links component builds "
+              "inside one release line only: such a parent build registers the builds of the new line; the statement of the "
+              "property does not spell this case out — components with several release lines are compared with the model, the "
+              "oracle judges single-line components); the spec-level theorems read 'never decreases' as containment, which "
+              "excludes such moves too. Trusted: Lean kernel, translator (constants incl. the two cut-off periods), adapter, mock "
               "git, sampled correspondence (2-3 repositories, linear and DAG-shaped components and parents, 1-2 component release "
-              "lines, commits with two build tags, both supply orders; dependency graphs over <=6 repositories). Not modelled: "
-              "commit times (inside the cut-off windows by the quantifier), repository names (ranks in sorted() order).")
+              "lines, commits with two build tags, early pins of versions that are no build tag, commit times inside the "
+              "windows (spread up to 29 days per repository) and 10% anywhere, both supply orders; dependency graphs over <=6 "
+              "repositories). Tag names are parsed by the model (see C06.tag_*). Not modelled: repository names (ranks in "
+              "sorted() order).")
 TECHNIQUE = ("Lean 4: DFS invariant (topological order, path stack) for the repository ordering; closure/DFS specifications for "
              "get_rbuilds_in_bump, invariants carried through the commit DFS for the stored bumps and skipped eligible commits; "
              "executable model of bumps / bn_map / included_at + correspondence and spec oracle on multi-repository scenarios")
